@@ -87,6 +87,8 @@ func (w *world) stepHeight(forceTxs int) {
 		g := (*genTx)(nil)
 		if w.dex != nil && w.dex.on && t.Chance(3, 5) {
 			g = w.genDexTx(ups[0])
+		} else if (c.Prop == "C05" || c.Prop == "C06") && t.Chance(1, 3) {
+			g = w.genRLPTx(ups[0])
 		} else {
 			g = w.genTx(ups[0])
 		}
@@ -102,6 +104,9 @@ func (w *world) stepHeight(forceTxs int) {
 		if adv && !advFirst {
 			w.authAttack(g)
 		}
+	}
+	if c.Prop == "C05" && t.Chance(1, 2) {
+		w.authCombo([]*genTx{w.genTx(ups[0]), w.genTx(ups[0]), w.genTx(ups[0]), w.genTx(ups[0])})
 	}
 	if c.Prop == "C06" && t.Chance(2, 3) || c.Prop != "C06" && t.Chance(1, 8) {
 		w.replayAttack()
